@@ -158,6 +158,17 @@ def run(tier):
         cases += [b"return " + b"(" * depth + b"1" + b")" * depth, b"x=" + b"{" * depth + b"}" * depth, b"do " * depth + b"end " * depth,
                   b"return " + b"-" * depth + b"1", b"return " + b"not " * depth + b"1", b"x=" + b"1+" * depth + b"1", b"return " + b"function() " * depth + b"end " * depth,
                   b"x=" + b"a." * depth + b"a", b"--[" + b"=" * depth + b"[", b'x="' + b"\\" * depth, b"x=" + b"f" + b"()" * depth]
+    # goto / label programs, valid and semantically wrong (jump into the scope of a local, missing or
+    # duplicate label, across functions), in nested blocks and below functions with parameters
+    wrappers = ["%s", "do %s end", "local a do %s end", "local a, b, c do do %s end end", "for i = 1, 2 do %s end", "while x do local q %s end",
+                "function f(p1, p2) %s end", "local function f(p1, p2, p3) local a do %s end end", "if x then %s else %s end", "repeat local z %s until z",
+                "return function(...) local a, b = ... for k, v in pairs(a) do %s end end"]
+    bodies = ["goto l local b ::l:: print(b)", "goto l local b ::l::", "goto l ::l:: ::l::", "goto missing", "::l:: goto l", "do goto l end local b ::l:: print(b)",
+              "goto l local b, c, d ::l:: print(d)", "local b goto l local c ::l:: print(b, c)", "::a:: local b ::c:: goto a", "goto l do ::l:: end",
+              "local b ::l:: local c goto l", "goto continue local b ::continue::", "do local u goto e end ::e::", "goto f1 function g() ::f1:: end"]
+    for w in wrappers:
+        for b in bodies:
+            cases.append((w.replace("%s", b)).encode())
     rob = load_all(list(enumerate(cases, 1)), "rob", timeout=2400)
     nrob = {"ok": 0, "syntax": 0}
     for i, b in enumerate(cases, 1):
